@@ -357,7 +357,9 @@ def main():
             pick = good[: want // 2] + failing[: want // 4] + rest[: want // 4]
             for hi, h in enumerate(pick):
                 hist = norm(h)
-                mode = ("SEP", "NPOL")[hi % 2]
+                mode = ("SEP", "NPOL", "SEP", "NPOL", "POL")[hi % 5]
+                if mode == "POL":      # occupation derivatives cannot be computed for POL kernels (known finding F32 of C15): plain stores only
+                    hist = [[o[0], o[1], o[2], False] if o[0] == "store" else o for o in hist]
                 replay(ck, comp, hist, os.path.join(tmp, "%s_%d" % (comp_name, hi)), ck.seed + hi, mode)
                 ck.traces += 1
                 if len(ck.samples) < 3 and any(o[0] == "fit" for o in hist):
@@ -373,7 +375,7 @@ def main():
     if nfit < 20:
         raise MachineryError("vacuous: only %d successful fits were replayed" % nfit)
     ck.assumptions = ["synthetic training data (random features incl. points under the 1e-6 training mask) written with pyscf chkfile",
-                      "MOLGP2 (libxc baselines through DFTKernel2) is not exercised", "weights compared to 1e-6..1e-7 relative (Cholesky vs LU)"]
+                      "MOLGP2 (libxc baselines through DFTKernel2) is not exercised", "POL exchange kernels are trained without orbital-derivative data (DFTKernel.get_k_and_deriv cannot run in POL mode: F32)", "weights compared to 1e-6..1e-7 relative (Cholesky vs LU)"]
     return ck.finish()
 
 
